@@ -234,9 +234,9 @@ func init() {
 func init() {
 	// ---- C15: optional, one-of and or-disabled inputs mean what their tags say ----
 	c15 := []*ir.Profile{
-		{Name: "c15-tags", MinSteps: 2, MaxSteps: 5, Durs: someDurs, Tags: true, PDisabled: 45, PWaitFor: 20, PDeploySlow: 30, MaxOutputs: 1},
-		{Name: "c15-tags-failing", MinSteps: 2, MaxSteps: 5, Durs: someDurs, Tags: true, Modes: []string{"err", "crash", "alt"}, PBad: 35, PDeployFail: 15, PDisabled: 35, PWaitFor: 20, MaxOutputs: 2, ErrOutput: true},
-		{Name: "c15-tags-loops", ItemsFromStep: 30, MinSteps: 2, MaxSteps: 4, Durs: []int64{0, 5, 50}, Tags: true, Foreach: 35, Modes: []string{"err"}, PBad: 25, PDisabled: 25, MaxOutputs: 1},
+		{Name: "c15-tags", ErrorPathWaits: true, MinSteps: 2, MaxSteps: 5, Durs: someDurs, Tags: true, PDisabled: 45, PWaitFor: 20, PDeploySlow: 30, MaxOutputs: 1},
+		{Name: "c15-tags-failing", ErrorPathWaits: true, MinSteps: 2, MaxSteps: 5, Durs: someDurs, Tags: true, Modes: []string{"err", "crash", "alt"}, PBad: 35, PDeployFail: 15, PDisabled: 35, PWaitFor: 20, MaxOutputs: 2, ErrOutput: true},
+		{Name: "c15-tags-loops", ErrorPathWaits: true, ItemsFromStep: 30, MinSteps: 2, MaxSteps: 4, Durs: []int64{0, 5, 50}, Tags: true, Foreach: 35, Modes: []string{"err"}, PBad: 25, PDisabled: 25, MaxOutputs: 1},
 		{Name: "c15-tags-hang", MinSteps: 2, MaxSteps: 4, Durs: []int64{0, 5, 50}, Tags: true, PDisabled: 30, SoftHang: true},
 	}
 	register(&PropDef{ID: "C15",
